@@ -19,7 +19,8 @@ RULE = ("generated engine states (GEL graphs in list- and dict-form, unicode / '
         "precedence class, …); distinct by canonical JSON of the case")
 ASSUMPTIONS = [
     "state values are JSON-shaped (None/bool/int/float/str/list/dict with str keys); src/dst/rel/ids are str, None, bool or int (str() of floats and containers is not modelled)",
-    "float()/int() of numeric strings is not modelled (generated strings are non-numeric); float() of ints is exact below 2**53",
+    "float() of strings is modelled for optional sign + plain decimal or nan/inf/infinity (any case); exponents, underscores, blanks are not generated; int() of numeric strings is not modelled; float() of ints is exact below 2**53",
+    "the documented per-weight pipeline (clamp; NaN or a non-finite clamp result -> the in-bounds value nearest 0.0; round6; epsilon-prune) is decided by Lean's `sw` on (input weight, stored weight) pairs of every stored edge that stems from exactly one input edge, for the file and for the state after load",
     "store.w keys are tuples of str (keys that differ only by type collapse under str() and are excluded); store values are floats or small ints",
     "json.loads(json.dumps(v)) == v for JSON-shaped v (CPython float repr round-trip), and json.dumps is a function of the ordered value",
     "load_latest_snapshot is a function of the file content and the fresh state only (no state carried between calls in one process): checked by histories of several loads of one unchanged file with in-place mutation of every container handed out by earlier loads, plus an object-identity walk",
@@ -122,7 +123,7 @@ RELS = ["coact", "r", "rel2", "__", "", "é"]
 BOUND_PAIRS = [(-1.0, 1.0), (-1.0, 1.0), (0.0, 1.0), (0.5, 1.0), (-1.0, -0.25), (-0.1234567, 0.7654321),
                (0.0, 0.0), (1.0, -1.0), (float("nan"), 1.0), (-1, 1), (float("-inf"), float("inf")),
                (0.5, float("inf")), (-0.3333333333, 0.3333333333), (0.1234565, 0.9), (-1.0, 0.1234565),
-               (float("-inf"), -0.5), (-2.5, 2.5)]
+               (float("-inf"), -0.5), (-2.5, 2.5), (0.2, 0.9), (0.2, 0.9), (0.5, 0.5), (-0.9, -0.2)]
 EPS = [None, None, 0.0, 1e-6, 0.05, 0.6, -1.0, float("nan"), float("inf"), 5e-7, 1]
 
 
@@ -211,6 +212,11 @@ def eff_bounds(cfg: dict) -> Tuple[float, float, float]:
     return lo, hi, e
 
 
+NUMERIC_STRINGS = ["0.5", "-1.25", "3", "+0.75", "1.0000004", ".5", "2.", "-0", "0.1234565", "nan", "NaN", "-nan", "inf",
+                   "-inf", "Infinity", "-INFINITY", "0.30000000000000004", "123456789.123456789"]
+NON_NUMERIC_STRINGS = ["abc", "", "1,5", "0x10", "--1", ".", "+", "1.2.3", "in", "nane"]
+
+
 def gen_weight(rng: random.Random, lo: float, hi: float, malformed: bool) -> Any:
     r = rng.random()
     if r < 0.25:
@@ -230,10 +236,12 @@ def gen_weight(rng: random.Random, lo: float, hi: float, malformed: bool) -> Any
         return rng.choice([0, 1, -1, 2, True, False, 10 ** 6])
     if r < 0.8:
         return (2 * rng.randrange(0, 10 ** 6) + 1) * 5e-7 * rng.choice([1, -1])
-    if r < 0.88:
+    if r < 0.85:
         return rng.choice([1e-7, -1e-7, 5e-7, 0.05, 0.049999999, 0.6, 0.59, 1.0000004, 0.9999996])
+    if r < 0.88:
+        return rng.choice(NUMERIC_STRINGS)
     if malformed and r < 0.93:
-        return rng.choice([None, "abc", [1], {"x": 1}, ""])
+        return rng.choice([None, [1], {"x": 1}] + NON_NUMERIC_STRINGS)
     return rng.uniform(lo if math.isfinite(lo) else -2, hi if math.isfinite(hi) else 2)
 
 
@@ -357,6 +365,38 @@ def gen_gel(rng: random.Random, lo: float, hi: float, malformed: bool) -> Any:
     keys = list(gel.keys())
     rng.shuffle(keys)
     return {k: gel[k] for k in keys}
+
+
+def _final_key(ed: dict) -> str:
+    src, dst, rel = str(ed.get("src", "")), str(ed.get("dst", "")), str(ed.get("rel", "coact"))
+    if src and dst:
+        return f"{src}→{dst}" if src <= dst else f"{dst}→{src}"
+    a, b = (src, dst) if src <= dst else (dst, src)
+    return f"{a}__{b}__{rel}"
+
+
+def weight_pairs(gs: Any, edges_out: dict) -> List[List[str]]:
+    """(input weight, stored weight) for every stored edge that comes from exactly one input edge:
+    what the documented pipeline must map to what (decided by Lean's `sw`)."""
+    if not isinstance(gs, dict):
+        return []
+    ein = gs.get("edges", {})
+    items = ein if isinstance(ein, list) else (list(ein.values()) if isinstance(ein, dict) else [])
+    contrib: dict = {}
+    for ed in items:
+        if not isinstance(ed, dict):
+            continue
+        try:
+            w = float(ed.get("weight", 0.0))
+        except Exception:
+            break  # the sanitiser's loop stops at the first unfloatable weight
+        contrib.setdefault(_final_key(ed), []).append(w)
+    out = []
+    for k, ws in contrib.items():
+        rec = edges_out.get(k) if isinstance(edges_out, dict) else None
+        if len(ws) == 1 and isinstance(rec, dict) and isinstance(rec.get("weight"), float):
+            out.append([fkey(ws[0]), fkey(rec["weight"])])
+    return out
 
 
 def meta_ok(g: Any) -> bool:
@@ -736,6 +776,16 @@ class ChainComp(Wrapped):
                 ok, why = False, f"edge {k!r} weight {w!r} outside [{lo},{hi}] (rounded) and not ε-pruned (eps={eps})"
                 break
         res.append(("weights_clamped_rounded", ok, why))
+        # documented NaN rule, readable twin of the Lean `swmap` monitor: NaN -> in-bounds value nearest 0.0
+        gs_in = (case["graph"] if case["has_graph"] else None) or (case["gel"] if case["has_gel"] else None)
+        e0 = min(max(0.0, lo), hi)
+        e0 = round(e0, 6) if math.isfinite(e0) else 0.0
+        if abs(e0) < eps:
+            e0 = 0.0
+        for where, eo_ in (("file", p1.get("gel", {}).get("edges", {})), ("state after load", dec(io["l1"]["graph"]).get("edges", {}))):
+            badn = [(b2f(a), b2f(b_)) for a, b_ in weight_pairs(gs_in, eo_) if b2f(a) != b2f(a) and b2f(b_) != e0]
+            res.append(("nan_weight_maps_to_inbounds_value_nearest_zero", not badn,
+                        f"{where}: NaN edge weight stored as {[b_ for _, b_ in badn][:3]}, documented value {e0} for bounds [{lo},{hi}] eps={eps}"))
         # byte fixpoint on the REAL code
         if self._hyp_fix(case):
             res.append(("byte_fixpoint_2", t[1] == t[0], "write(load(write s)) != write s"))
@@ -752,6 +802,19 @@ class ChainComp(Wrapped):
               if isinstance(e.get("weight"), float)]
         rq.append(("lean.weights_are_sw_fixed_points",
                    {"c": "snap.mon", "k": "swfix", "bounds": bounds_req(case["cfg"]), "xs": ws}))
+        gs = (case["graph"] if case["has_graph"] else None) or (case["gel"] if case["has_gel"] else None)
+        pw = weight_pairs(gs, p1.get("gel", {}).get("edges", {}))
+        if pw:
+            rq.append(("lean.written_weight_is_documented_clamp_of_input",
+                       {"c": "snap.mon", "k": "swmap", "bounds": bounds_req(case["cfg"]), "pairs": pw}))
+        try:
+            restored = dec(io["l1"]["graph"]).get("edges", {})
+        except Exception:
+            restored = {}
+        pr = weight_pairs(gs, restored)
+        if pr:
+            rq.append(("lean.restored_weight_is_documented_clamp_of_input",
+                       {"c": "snap.mon", "k": "swmap", "bounds": bounds_req(case["cfg"]), "pairs": pr}))
         if self._hyp_fix(case):
             rq.append(("lean.fixpoint_on_impl_body",
                        {"c": "snap.mon", "k": "fixpoint", "bounds": bounds_req(case["cfg"]),
@@ -780,6 +843,8 @@ class ChainComp(Wrapped):
                     t.add("inf_weight")
                 elif isinstance(w, (int, float)) and not isinstance(w, bool) and (w < lo or w > hi):
                     t.add("clamped")
+                elif isinstance(w, str) and w in NUMERIC_STRINGS:
+                    t.add("weight_numeric_string")
                 elif not isinstance(w, (int, float)):
                     t.add("weight_unfloatable")
                 if isinstance(w, float) and w == w and round(w, 6) != w:
@@ -834,6 +899,56 @@ class ChainComp(Wrapped):
             yield c
 
 
+
+
+# --------------------------------------------------------------------------
+# component 1c: the documented per-weight clamp, end to end (write -> file -> load into state)
+# --------------------------------------------------------------------------
+
+WEIGHT_BOUNDS = [(-1.0, 1.0), (0.0, 1.0), (0.2, 0.9), (0.2, 0.9), (0.5, 1.0), (-0.9, -0.2), (-1.0, -0.25), (0.5, 0.5), (0.0, 0.0),
+                 (1.0, -1.0), (-0.1234567, 0.7654321), (0.1234565, 0.9), (-1, 1), (float("-inf"), float("inf")),
+                 (0.5, float("inf")), (float("-inf"), -0.5), (float("nan"), 1.0)]
+SPECIAL_WEIGHTS = [float("nan"), float("nan"), float("inf"), float("-inf"), -0.0, 0.0, 1e300, -1e300, 5.0, -5.0, 1.0000004,
+                   True, False, 1, -1, 2, 0, "nan", "NaN", "-nan", "inf", "-inf", "Infinity", "0.5", "-1.25", "3", ".5", "2.",
+                   "0.1234565", 0.15, 0.95, 0.2, 0.9, 0.19999995, 0.90000005, 1e-7, -1e-7, 0.55]
+
+
+class WeightComp(ChainComp):
+    """Small graphs with pairwise distinct endpoints, every edge weight from the special set
+    (NaN / ±inf / far out of range / bool / int / numeric string / boundary), under bounds with 0
+    inside, 0 outside ([0.2, 0.9], negative), degenerate (lo == hi, inverted, NaN) and infinite."""
+    name = "snap.weights"
+    budget = {"quick": 300, "thorough": 5000, "search": 4000}
+
+    def gen_raw(self, rng, i):
+        lo, hi = rng.choice(WEIGHT_BOUNDS)
+        where = rng.random()
+        cfg: dict = {}
+        if where < 0.5:
+            cfg["t4"] = {"weight_min": lo, "weight_max": hi}
+        elif where < 0.8:
+            cfg["graph"] = {"weight_min": lo, "weight_max": hi}
+        else:
+            cfg["graph"] = {"weight_min": lo}
+            cfg["t4"] = {"weight_max": hi}
+        e = rng.choice([None, None, None, 0.0, 1e-6, 0.05, 0.6])
+        if e is not None:
+            cfg.setdefault("graph", {})["decay"] = {"epsilon_prune": e}
+        elo, ehi, _ = eff_bounds(cfg)
+        n = rng.choice([1, 1, 2, 3, 5])
+        ids = ["n%d" % k for k in range(n + 1)]
+        eds = []
+        for k in range(n):
+            w = rng.choice(SPECIAL_WEIGHTS) if rng.random() < 0.8 else gen_weight(rng, elo, ehi, False)
+            ed = {"src": ids[k], "dst": ids[k + 1], "rel": rng.choice(["coact", "r"]), "weight": w}
+            if rng.random() < 0.3:
+                ed["src"], ed["dst"] = ed["dst"], ed["src"]
+            eds.append(ed)
+        graph = {"nodes": {x: {"id": x} for x in ids},
+                 "edges": eds if rng.random() < 0.5 else {"e%d" % j: e_ for j, e_ in enumerate(eds)}}
+        return {"cfg": cfg, "via": rng.choice(["cfg", "cfg", "config", "ns"]), "turn": 1, "agent": "A",
+                "version": "v1", "applied": 0, "deltas": None, "store": {"kind": "absent"},
+                "as_dict": rng.random() < 0.3, "graph": graph, "gel": None, "has_graph": True, "has_gel": False}
 
 # --------------------------------------------------------------------------
 # component 1b: HISTORIES — several loads of one unchanged file in one process, with in-place
@@ -1917,7 +2032,7 @@ class RoundComp(Wrapped):
         return ["batch"]
 
 
-COMPONENTS = [ChainComp(), HistoryComp(), SanitizeComp(), LoadComp(), PickComp(), TempComp(), SidecarComp(), RoundComp()]
+COMPONENTS = [ChainComp(), WeightComp(), HistoryComp(), SanitizeComp(), LoadComp(), PickComp(), TempComp(), SidecarComp(), RoundComp()]
 
 
 def _setup(ctx: Ctx) -> None:
